@@ -1,0 +1,9 @@
+//go:build verif
+
+package dcp
+
+import "github.com/Trendyol/go-dcp/config"
+
+// VerifNewDcpConfig exposes the unexported config-file loader (with ${VAR}
+// substitution) to the verification harness. Additive, compiled only with -tags verif.
+func VerifNewDcpConfig(path string) (config.Dcp, error) { return newDcpConfig(path) }
